@@ -10,17 +10,6 @@ import (
 // This file only exports unexported values and functions to verification
 // tooling. It is compiled only with the "verif" build tag.
 
-// VerifRegexps returns the source text of the package-level regular expressions.
-func VerifRegexps() map[string]string {
-	return map[string]string{
-		"dataAttributeNamePattern":              dataAttributeNamePattern.String(),
-		"endsWithCharRefPrefixPattern":          endsWithCharRefPrefixPattern.String(),
-		"startsWithFullySpecifiedSchemePattern": startsWithFullySpecifiedSchemePattern.String(),
-		"endsWithPercentEncodingPrefixPattern":  endsWithPercentEncodingPrefixPattern.String(),
-		"containsWhitespaceOrControlPattern":    containsWhitespaceOrControlPattern.String(),
-	}
-}
-
 // VerifPolicy is a dump of the sanitization policy tables.
 type VerifPolicy struct {
 	ContextNames      map[int]string            // sanitizationContext -> name
